@@ -1355,6 +1355,11 @@ func Generate(t *rapid.T, px string) gobatch.Program {
 		// parameter of recursive type fail in gomacro for plain recursive types too)
 		for i, n := 0, g.Int(1, 3, "list-uses"); i < n; i++ {
 			arg := []*Ty{g.closedType(cAny, 2)}
+			if arg[0].k == 'e' {
+				// a nil interface stored into a recursive struct literal panics for plain
+				// recursive types too
+				arg[0] = tString
+			}
 			vs, l := g.Local("vs"), g.Local("l")
 			st := sliceOf(arg[0])
 			use := cat(vs, " := ", fc.construct(st, st, 2), "\n", l, " := ", fref(g.listFuncs[2], arg), "(", vs, ")\n",
